@@ -450,3 +450,126 @@ mod verif_kani3 {
         c20_domain_members_6 => 6;
     }
 }
+
+#[cfg(kani)]
+mod verif_kani4 {
+    use super::verif_kani2::{digest_of_recorder_small, OF_CALLS, OF_IN, OF_LEN, OF_OUT};
+    use super::*;
+
+    // ---- TypedDataBlob::compute: the composition at the top of C08 / C09 / C20.  Callee contracts (recording stubs):
+    // verify_domain_type (any verdict), Types::struct_hash (any verdict, any digest; records which type name and which of
+    // the two JSON objects it was given), Digest::of (records its input).
+    static mut LOG: [u8; 8] = [0; 8]; // 1 = verify_domain_type, 2 = struct_hash(domain), 3 = struct_hash(message), 9 = struct_hash(other)
+    static mut NLOG: usize = 0;
+    static mut VERDICT: [bool; 3] = [false; 3];
+    static mut HASHES: [[u8; 32]; 2] = [[0; 32]; 2];
+    fn log(x: u8) {
+        unsafe {
+            if NLOG < 8 {
+                LOG[NLOG] = x;
+            }
+            NLOG += 1;
+        }
+    }
+    fn verify_domain_type_contract(_this: &TypedDataBlob) -> Result<()> {
+        log(1);
+        if unsafe { VERDICT[0] } {
+            Ok(())
+        } else {
+            Err(anyhow::Error::new(core::fmt::Error))
+        }
+    }
+    fn name_is(kind: &str, want: &[u8]) -> bool {
+        let b = kind.as_bytes();
+        if b.len() != want.len() {
+            return false;
+        }
+        let mut i = 0;
+        while i < want.len() {
+            if b[i] != want[i] {
+                return false;
+            }
+            i += 1;
+        }
+        true
+    }
+    fn struct_hash_contract(_this: &Types, kind: &str, data: JsonObject) -> Result<Digest> {
+        // the primary type of the harness's document is called "Pt"
+        let which = if name_is(kind, b"EIP712Domain") && data.len() == 0 {
+            2
+        } else if name_is(kind, b"Pt") && data.len() == 0 {
+            3
+        } else {
+            9
+        };
+        log(which);
+        core::mem::forget(data);
+        let k = if which == 2 { 0 } else { 1 };
+        if unsafe { VERDICT[1 + k] } {
+            Ok(Digest(unsafe { HASHES[k] }))
+        } else {
+            Err(anyhow::Error::new(core::fmt::Error))
+        }
+    }
+    fn any32() -> [u8; 32] {
+        let mut o = [0u8; 32];
+        o[..16].copy_from_slice(&kani::any::<u128>().to_be_bytes());
+        o[16..].copy_from_slice(&kani::any::<u128>().to_be_bytes());
+        o
+    }
+
+    #[kani::proof]
+    #[kani::unwind(34)]
+    #[kani::stub(TypedDataBlob::verify_domain_type, verify_domain_type_contract)]
+    #[kani::stub(Types::struct_hash, struct_hash_contract)]
+    #[kani::stub(ethdigest::Digest::of, digest_of_recorder_small)]
+    #[kani::stub(std::hash::RandomState::new, crate::verif_common::fixed_random_state)]
+    #[kani::stub(alloc::fmt::format, crate::verif_common::no_format)]
+    #[kani::stub(<anyhow::Error as core::ops::Drop>::drop, crate::verif_common::leak_anyhow)]
+    fn c08_compute_composition() {
+        let (v0, v1, v2): (bool, bool, bool) = (kani::any(), kani::any(), kani::any());
+        let (ds, mh, out) = (any32(), any32(), any32());
+        unsafe {
+            VERDICT = [v0, v1, v2];
+            HASHES = [ds, mh];
+            OF_OUT[0] = out;
+        }
+        // both JSON objects are empty (dropping a non-empty serde_json::Map does not go through CBMC), so WHICH object each
+        // hashStruct call receives is not visible here - only the type names and the order are; the native differential covers it
+        let blob = TypedDataBlob { types: Types(HashMap::default()), primary_type: String::from("Pt"), domain: JsonObject::new(), message: JsonObject::new() };
+        let res = blob.compute();
+        let (n, l) = unsafe { (NLOG, LOG) };
+        assert!(n >= 1 && l[0] == 1, "compute: the domain type is verified first, before anything is hashed");
+        if !v0 {
+            assert!(res.is_err() && n == 1 && unsafe { OF_CALLS } == 0, "compute: a malformed domain type is refused and nothing is hashed");
+        } else if !v1 {
+            assert!(res.is_err() && n == 2 && l[1] == 2 && unsafe { OF_CALLS } == 0, "compute: a refused domain value is an error and no digest is produced");
+        } else if !v2 {
+            assert!(res.is_err() && n == 3 && l[1] == 2 && l[2] == 3 && unsafe { OF_CALLS } == 0, "compute: a refused message is an error and no digest is produced");
+        } else {
+            assert!(n == 3 && l[1] == 2 && l[2] == 3, "compute: hashStruct(EIP712Domain, domain) then hashStruct(primaryType, message), nothing else");
+            assert!(res.is_ok(), "compute: conforming documents are accepted");
+            let t = res.as_ref().unwrap();
+            assert!(unsafe { OF_CALLS } == 1 && unsafe { OF_LEN[0] } == 66, "compute: one Keccak call over 66 bytes");
+            let inp = unsafe { OF_IN[0] };
+            // recorder layout for 66-byte inputs: bytes 0..64 in place, bytes 64..66 in place
+            assert!(inp[0] == 0x19 && inp[1] == 0x01, "compute: preimage starts with 0x19 0x01");
+            let mut i = 0;
+            while i < 30 {
+                assert!(inp[2 + i] == ds[i], "compute: then the domain separator");
+                i += 1;
+            }
+            assert!(inp[32] == ds[30] && inp[33] == ds[31], "compute: then the domain separator");
+            let mut i = 0;
+            while i < 32 {
+                assert!(inp[34 + i] == mh[i], "compute: then hashStruct(message)");
+                i += 1;
+            }
+            assert!(t.signing_message().0 == out, "compute: the signing digest is that Keccak value");
+            assert!(t.domain_separator().0 == ds && t.message_hash().0 == mh, "compute: domain separator and message hash are the two struct hashes");
+        }
+        kani::cover!(res.is_ok());
+        kani::cover!(res.is_err() && v0 && v1);
+        core::mem::forget(res);
+    }
+}
